@@ -18,12 +18,13 @@ package js
 //@   ensures[S]  result ==> l.r.buf[l.r.pos] != 0
 
 //@ pred isLTat(b, k) := b[k] == '\n' || b[k] == '\r' || (b[k] == 0xE2 && b[k+1] == 0x80 && (b[k+2] == 0xA8 || b[k+2] == 0xA9))
+//@ pred ltLen(b, k) := ite(b[k] == '\n', 1, ite(b[k] == '\r', ite(b[k+1] == '\n', 2, 1), 3))
 //@ func Lexer.consumeLineTerminator
 //@   preserves[S] jlStep(l)
 //@   ensures[S]  !result ==> l.r.pos == old(l.r.pos)
 //@   ensures[S]  result ==> l.r.pos > old(l.r.pos)
 //@   ensures[F,C06] @lt: result <==> isLTat(l.r.buf, old(l.r.pos))
-//@   ensures[F,C06] @lt-len: result ==> l.r.pos <= old(l.r.pos) + 3
+//@   ensures[F,C06] @lt-len: result ==> l.r.pos == old(l.r.pos) + ltLen(l.r.buf, old(l.r.pos))
 
 //@ func Lexer.consumeDigit
 //@   preserves[S] jlStep(l)
@@ -127,7 +128,18 @@ package js
 //@   loop * candidate l.err == old(l.err)
 //@   loop * decreases len(l.r.buf) - l.r.pos
 
+// string body from p for a delimiter: stops at the delimiter, at a raw \n or \r, or at the end of input; a backslash takes a
+// following line terminator (line continuation), delimiter or backslash with it
+//@ pred jsStrNextD(b, p) := ite(b[p] == '\\', p + 1 + ite(isLTat(b, p+1), ltLen(b, p+1), ite(b[p+1] == '"' || b[p+1] == '\\', 1, 0)), p + 1)
+//@ pred jsStrNextS(b, p) := ite(b[p] == '\\', p + 1 + ite(isLTat(b, p+1), ltLen(b, p+1), ite(b[p+1] == '\'' || b[p+1] == '\\', 1, 0)), p + 1)
+//@ orbit jsStrEndD(s, p) stop s[p] == '"' || s[p] == '\n' || s[p] == '\r' || p >= len(s)-1 next jsStrNextD(s, p)
+//@ orbit jsStrEndS(s, p) stop s[p] == '\'' || s[p] == '\n' || s[p] == '\r' || p >= len(s)-1 next jsStrNextS(s, p)
+//@ pred jsStrEnd(b, p, d) := ite(d == '"', jsStrEndD(b, p), jsStrEndS(b, p))
 //@ func Lexer.consumeStringToken
+//@   requires[F] l.r.buf[l.r.pos] == '"' || l.r.buf[l.r.pos] == '\''
+//@   ensures[F,C06] @string-end: result == StringToken ==> l.r.pos == jsStrEnd(l.r.buf, old(l.r.pos)+1, old(l.r.buf[l.r.pos])) + 1 && l.r.buf[l.r.pos-1] == old(l.r.buf[l.r.pos]) && l.r.pos - 1 > old(l.r.pos)
+//@   ensures[F,C06] @string-unterminated: result == ErrorToken ==> l.r.pos == jsStrEnd(l.r.buf, old(l.r.pos)+1, old(l.r.buf[l.r.pos])) && l.r.buf[l.r.pos] != old(l.r.buf[l.r.pos])
+//@   loop 1 invariant[F] delim == old(l.r.buf[l.r.pos]) && jsStrEnd(l.r.buf, l.r.pos, delim) == jsStrEnd(l.r.buf, old(l.r.pos)+1, delim)
 //@   ensures[F,C15] @err-span: jlErr(l) && (l.err != old(l.err) ==> result == ErrorToken)
 //@   loop * candidate[F] l.err == old(l.err)
 //@   preserves[S] jlStep(l)
@@ -153,7 +165,14 @@ package js
 //@   loop * candidate l.r.pos > old(l.r.pos)
 //@   loop * decreases len(l.r.buf) - l.r.pos
 
+// template characters from p: stops at the closing backquote, at "${", or at the end of input; a backslash takes the next
+// byte (unless it is NUL) with it
+//@ orbit tplEnd(s, p) stop s[p] == '`' || (s[p] == '$' && s[p+1] == '{') || p >= len(s)-1 next ite(s[p] == '\\', p + 1 + ite(s[p+1] != 0, 1, 0), p + 1)
 //@ func Lexer.consumeTemplateToken
+//@   ensures[F,C06] @tpl-end: (result == TemplateToken || result == TemplateEndToken) ==> l.r.pos == tplEnd(l.r.buf, old(l.r.pos)+1) + 1 && l.r.buf[l.r.pos-1] == '`'
+//@   ensures[F,C06] @tpl-subst: (result == TemplateStartToken || result == TemplateMiddleToken) ==> l.r.pos == tplEnd(l.r.buf, old(l.r.pos)+1) + 2 && l.r.buf[l.r.pos-2] == '$' && l.r.buf[l.r.pos-1] == '{'
+//@   ensures[F,C06] @tpl-kind: (result == TemplateEndToken || result == TemplateMiddleToken) <==> (result != ErrorToken && old(l.r.buf[l.r.pos]) == '}')
+//@   loop 1 invariant[F] tplEnd(l.r.buf, l.r.pos) == tplEnd(l.r.buf, old(l.r.pos)+1) && (continuation <==> old(l.r.buf[l.r.pos]) == '}')
 //@   ensures[F,C15] @err-span: jlErr(l) && (l.err != old(l.err) ==> result == ErrorToken)
 //@   loop * candidate[F] l.err == old(l.err)
 //@   ensures[F,C06] @tpl-kind: result == ErrorToken || result == TemplateToken || result == TemplateStartToken || result == TemplateMiddleToken || result == TemplateEndToken
